@@ -1,12 +1,41 @@
-"""C08 — depth, recursion, call and search limits are exact.  K-crate harnesses on runtime.rs / runtime_scope.rs / natives."""
-from . import kcrate
+"""C08 — depth, recursion, call and search limits are exact.
+K-crate: the call counter and the search budget on the real runtime.rs.  K-unit slices: the depth check of
+RuntimeScope::from_template and the recursion counter of the tail-call trampoline (verbatim source text in a shim environment)."""
+import os
+import re
+
+from . import core, kcrate, kunit
 
 OUT = [
     "counting of calls made by higher-order builtins into user functions (needs the evaluator loop on a compiled program)",
     "time limit exactness (only `no call begins after the deadline`, see C10)",
-    "limits L > 5 for the search budget, more than 4 consecutive calls from one symbolic pre-state (the pre-state is arbitrary, so this is an inductive step)",
+    "search limits L > 5, recursion limits L > 3 / more than 5 consecutive tail calls, more than 4 consecutive counter steps from one symbolic pre-state",
+    "the depth check and the trampoline are decided on source slices: their callees (from_template's declaration loop, eval) are a scripted environment",
 ]
 
 
+def run_slices(chk, prefixes, module="c08"):
+    crate = kunit.prepare(chk)
+    chk.assumptions += [a for a in kunit.ASSUMPTIONS if a not in chk.assumptions]
+    chk.assumptions.append("slices: brace-matched blocks of src/runtime_scope.rs are copied verbatim on every run into the shim "
+                           "environments /verif/kani/unit/slices/{depth_step,trampoline}.rs (same identifiers, symbolic environment)")
+    if not crate.build():
+        raise core.Inconclusive("K-unit build failed:\n" + crate.build_log[-3000:])
+    src = open(os.path.join(core.VERIF, "kani/unit/src/h/%s.rs" % module)).read()
+    names = [n for n in re.findall(r"#\[kani::proof\](?:\s*#\[[^\]]*\])*\s*fn (\w+)", src) if any(n.startswith(p) for p in prefixes)]
+    if chk.only:
+        names = [n for n in names if any(o in n for o in chk.only)]
+    tmo = 300 if chk.tier == "quick" else 1800
+    specs = []
+    for n in names:
+        sl = crate.slices.get("depth_step" if "depth" in n else "trampoline", {})
+        specs.append(dict(name="h::%s::%s" % (module, n), timeout=tmo, info=dict(
+            functions_encoded="src/runtime_scope.rs slice (sha256 %s, %s lines)" % (sl.get("sha256"), sl.get("lines")), timeout=tmo,
+            bounds="symbolic limit, arbitrary parent height (inductive step)" if "depth" in n else "recursion limit <= 3, scripts of <= 5 symbolic steps")))
+    obs = core.run_harnesses(chk, crate, specs, logdir=os.path.join(core.CACHE, "logs", chk.pid))
+    core.triage(chk, crate, obs, {})
+
+
 def run(chk):
+    run_slices(chk, ["c08_", "c07_trampoline"])
     return kcrate.run(chk, [("runtime.rs", "c08_"), ("runtime_scope.rs", "c08_")], out=OUT)
